@@ -9,36 +9,37 @@ set_option linter.unusedSectionVars false
 variable {N F G X K : Type} [DecidableEq N]
 
 theorem derivIndex_go (fps : List N) (p : N) (l : List N) (i : Nat) :
-    derivIndex.go fps p l i = if fps.contains p then (position l p).map (· + i) else none := by
+    derivIndex.go fps p l i = if p ∈ fps then (position l p).map (· + i) else none := by
   induction l generalizing i with
   | nil => simp [derivIndex.go, position]
   | cons a as ih =>
-    simp only [derivIndex.go, position]
     by_cases hap : a = p
     · subst hap
-      by_cases hc : fps.contains a = true
-      · simp [hc]
-      · simp only [hc, Bool.false_and, Bool.false_eq_true, if_false]
-        rw [ih]; simp [hc]
-    · have : (fps.contains a && decide (a = p)) = false := by simp [hap]
-      simp only [this, Bool.false_eq_true, if_false, hap]
+      by_cases hm : a ∈ fps
+      · simp [derivIndex.go, position, hm]
+      · have hne : (fps.contains a && decide (a = a)) = false := by simp [hm]
+        simp only [derivIndex.go, hne, Bool.false_eq_true, if_false, hm]
+        rw [ih]; simp [hm]
+    · have hne : (fps.contains a && decide (a = p)) = false := by simp [hap]
+      simp only [derivIndex.go, hne, Bool.false_eq_true, if_false, position, hap]
       rw [ih]
-      by_cases hc : fps.contains p = true
-      · simp only [hc, if_true, Option.map_map]
-        congr 1
-        funext k; simp; omega
-      · simp [hc]
+      by_cases hm : p ∈ fps
+      · simp only [hm, if_true, Option.map_map]
+        cases position as p with
+        | none => simp
+        | some k => simp; omega
+      · simp [hm]
 
 /-- the slot a derivative is stored under: the position of the parameter in the model's list,
 provided the function depends on it -/
 theorem derivIndex_eq (mps fps : List N) (p : N) :
-    derivIndex mps fps p = if fps.contains p then position mps p else none := by
+    derivIndex mps fps p = if p ∈ fps then position mps p else none := by
   unfold derivIndex
   rw [derivIndex_go]
-  by_cases hc : fps.contains p = true
-  · simp only [hc, if_true]
+  by_cases hm : p ∈ fps
+  · simp only [hm, if_true]
     cases position mps p <;> simp
-  · simp [hc]
+  · simp [hm]
 
 theorem checkNames_ok_iff (hc : N → Bool) (l : List N) :
     checkNames hc l = .ok () ↔ namesOk hc l = true := by
@@ -71,5 +72,311 @@ theorem wrap_eq (hc : N → Bool) (ar : F → Nat) (names fps : List N) (f : F) 
     wrap hc ar names fps f =
       if fps.length ≠ ar f then .error (.incorrectParameterCount fps.length (ar f)) else .ok ⟨f, im⟩ := by
   simp [wrap, hn, hf, him]
+
+end Varpro.MB
+
+namespace Varpro.MB
+set_option linter.unusedSectionVars false
+variable {N F G X K : Type} [DecidableEq N]
+
+/-- the slot of the parameter named `p` -/
+def keyOf (names : List N) (p : N) : Nat := (position names p).getD 0
+
+/-- the derivative map a valid item produces: for every supplied derivative, in the order of the
+calls, the slot of its parameter and the wrapped user derivative -/
+def derivMap (names : List N) (im : List Nat) (ds : List (N × F)) : List (Nat × Wrapped F) :=
+  ds.map fun pd => (keyOf names pd.1, ⟨pd.2, im⟩)
+
+theorem keyOf_spec {names : List N} {p : N} (h : p ∈ names) :
+    position names p = some (keyOf names p) := by
+  obtain ⟨i, hi⟩ := position_of_mem h
+  simp [keyOf, hi]
+
+theorem keyOf_inj {names : List N} {p q : N} (hp : p ∈ names) (hq : q ∈ names)
+    (h : keyOf names p = keyOf names q) : p = q := by
+  have h1 := position_some (keyOf_spec hp)
+  have h2 := position_some (keyOf_spec hq)
+  obtain ⟨i1, e1, _⟩ := h1
+  obtain ⟨i2, e2, _⟩ := h2
+  rw [← e1, ← e2]
+  simp [h]
+
+theorem mem_of_indexMapping {names fps : List N} {im : List Nat} (h : indexMapping names fps = .ok im)
+    {n : N} (hn : n ∈ fps) : n ∈ names := by
+  have hm := indexMapping_ok h
+  have : position names n ∈ fps.map (position names) := List.mem_map.mpr ⟨n, hn, rfl⟩
+  rw [hm] at this
+  obtain ⟨i, _, hi⟩ := List.mem_map.mp this
+  obtain ⟨hlt, he, _⟩ := position_some hi.symm
+  rw [← he]; exact List.getElem_mem hlt
+
+/-- hypotheses under which `function(fps, f)` starts a healthy function builder -/
+structure FnOK (hc : N → Bool) (ar : F → Nat) (names fps : List N) (f : F) (im : List Nat) : Prop where
+  hnames : checkNames hc names = .ok ()
+  hfps : checkNames hc fps = .ok ()
+  him : indexMapping names fps = .ok im
+  harity : fps.length = ar f
+
+/-- the builder is healthy and has recorded exactly the derivatives `ds` -/
+structure GoodFnB (names fps : List N) (f : F) (im : List Nat) (ds : List (N × F)) (b : FnB N F G) : Prop where
+  mps : b.mps = names
+  fps : b.fps = fps
+  res : b.res = .ok { function := .wrapped ⟨f, im⟩, derivatives := derivMap names im ds }
+
+theorem new_good (hc : N → Bool) (ar : F → Nat) (names fps : List N) (f : F) (im : List Nat)
+    (h : FnOK hc ar names fps f im) : GoodFnB names fps f im [] (FnB.new hc ar names fps f : FnB N F G) := by
+  unfold FnB.new
+  simp only [h.hfps]
+  rw [wrap_eq hc ar names fps f im h.hnames h.hfps h.him]
+  simp only [h.harity, ne_eq, not_true_eq_false, if_false]
+  exact ⟨rfl, rfl, rfl⟩
+
+/-- if the function itself is not acceptable, the builder starts (and stays) in an error state -/
+theorem new_bad (hc : N → Bool) (ar : F → Nat) (names fps : List N) (f : F)
+    (hn : checkNames hc names = .ok ())
+    (h : ¬ ∃ im, FnOK hc ar names fps f im) :
+    ∃ e, (FnB.new hc ar names fps f : FnB N F G).res = .error e := by
+  unfold FnB.new
+  cases hf : checkNames hc fps with
+  | error e => exact ⟨e, rfl⟩
+  | ok u =>
+    simp only
+    cases hw : wrap hc ar names fps f with
+    | error e => exact ⟨e, rfl⟩
+    | ok w =>
+      exfalso
+      apply h
+      unfold wrap at hw
+      simp only [hn, hf] at hw
+      by_cases hl : fps.length ≠ ar f
+      · simp [hl] at hw
+      · simp only [hl, if_false] at hw
+        cases him : indexMapping names fps with
+        | error e => simp [him] at hw
+        | ok im => exact ⟨im, hn, hf, him, by simpa using hl⟩
+
+theorem mapContains_derivMap {names : List N} {im : List Nat} {ds : List (N × F)} (k : Nat) :
+    mapContains (derivMap names im ds) k = true ↔ ∃ pd ∈ ds, keyOf names pd.1 = k := by
+  simp [mapContains, derivMap, List.any_eq_true]
+
+theorem partialDeriv_good (hc : N → Bool) (ar : F → Nat) (names fps : List N) (f : F) (im : List Nat)
+    (h : FnOK hc ar names fps f im) (ds : List (N × F)) (b : FnB N F G)
+    (hg : GoodFnB names fps f im ds b) (hsub : ∀ pd ∈ ds, pd.1 ∈ fps)
+    (p : N) (d : F) (hp : p ∈ fps) (har : ar d = fps.length) (hnew : ∀ pd ∈ ds, pd.1 ≠ p) :
+    GoodFnB names fps f im (ds ++ [(p, d)]) (b.partialDeriv hc ar p d) := by
+  have hpn : p ∈ names := mem_of_indexMapping h.him hp
+  unfold FnB.partialDeriv
+  rw [hg.mps, hg.fps, derivIndex_eq]
+  simp only [hp, if_true, keyOf_spec hpn, hg.res]
+  rw [wrap_eq hc ar names fps d im h.hnames h.hfps h.him]
+  simp only [har, ne_eq, not_true_eq_false, if_false]
+  have hnot : (derivMap names im ds).any (fun kv => kv.1 == keyOf names p) = false := by
+    rw [Bool.eq_false_iff]
+    intro hany
+    have := (mapContains_derivMap (keyOf names p)).mp hany
+    obtain ⟨pd, hpd, hk⟩ := this
+    have hq : pd.1 ∈ names := mem_of_indexMapping h.him (hsub pd hpd)
+    exact hnew pd hpd (keyOf_inj hq hpn hk)
+  simp only [mapInsert, hnot, Bool.false_eq_true, if_false]
+  refine ⟨rfl, rfl, ?_⟩
+  simp [derivMap]
+
+theorem partialDeriv_bad (hc : N → Bool) (ar : F → Nat) (names fps : List N) (f : F) (im : List Nat)
+    (h : FnOK hc ar names fps f im) (ds : List (N × F)) (b : FnB N F G)
+    (hg : GoodFnB names fps f im ds b) (hsub : ∀ pd ∈ ds, pd.1 ∈ fps)
+    (p : N) (d : F) (hbad : ¬ (p ∈ fps ∧ ar d = fps.length ∧ ∀ pd ∈ ds, pd.1 ≠ p)) :
+    ∃ e, (b.partialDeriv hc ar p d).res = .error e := by
+  unfold FnB.partialDeriv
+  rw [hg.mps, hg.fps, derivIndex_eq]
+  by_cases hp : p ∈ fps
+  · have hpn : p ∈ names := mem_of_indexMapping h.him hp
+    simp only [hp, if_true, keyOf_spec hpn, hg.res]
+    rw [wrap_eq hc ar names fps d im h.hnames h.hfps h.him]
+    by_cases har : ar d = fps.length
+    · simp only [har, ne_eq, not_true_eq_false, if_false]
+      have hdup : ∃ pd ∈ ds, pd.1 = p := by
+        apply Classical.byContradiction
+        intro hno
+        apply hbad
+        refine ⟨hp, har, ?_⟩
+        intro pd hpd he
+        exact hno ⟨pd, hpd, he⟩
+      obtain ⟨pd, hpd, he⟩ := hdup
+      have hany : (derivMap names im ds).any (fun kv => kv.1 == keyOf names p) = true :=
+        (mapContains_derivMap (keyOf names p)).mpr ⟨pd, hpd, by rw [he]⟩
+      simp only [mapInsert, hany, if_true]
+      exact ⟨_, rfl⟩
+    · have : fps.length ≠ ar d := fun e => har e.symm
+      simp only [this, ne_eq, not_false_eq_true, if_true]
+      exact ⟨_, rfl⟩
+  · simp only [hp, if_false]
+    exact ⟨_, rfl⟩
+
+theorem partialDeriv_error_stays (hc : N → Bool) (ar : F → Nat) (b : FnB N F G) (p : N) (d : F)
+    (h : ∃ e, b.res = .error e) : ∃ e, (b.partialDeriv hc ar p d).res = .error e := by
+  obtain ⟨e, he⟩ := h
+  unfold FnB.partialDeriv
+  split
+  · simp [he]
+  · exact ⟨_, rfl⟩
+
+theorem foldl_error_stays (hc : N → Bool) (ar : F → Nat) (ds : List (N × F)) (b : FnB N F G)
+    (h : ∃ e, b.res = .error e) :
+    ∃ e, (ds.foldl (fun b pd => b.partialDeriv hc ar pd.1 pd.2) b).res = .error e := by
+  induction ds generalizing b with
+  | nil => exact h
+  | cons pd ds ih => exact ih _ (partialDeriv_error_stays hc ar b pd.1 pd.2 h)
+
+/-- the derivative calls of an item are acceptable: each names a parameter of the function, has the
+function's arity, and no parameter is named twice -/
+def DerivsOK (ar : F → Nat) (fps : List N) (ds : List (N × F)) : Prop :=
+  (∀ pd ∈ ds, pd.1 ∈ fps ∧ ar pd.2 = fps.length) ∧ (ds.map (·.1)).Nodup
+
+theorem foldl_spec (hc : N → Bool) (ar : F → Nat) (names fps : List N) (f : F) (im : List Nat)
+    (h : FnOK hc ar names fps f im) (rest : List (N × F)) :
+    ∀ (ds0 : List (N × F)) (b : FnB N F G), GoodFnB names fps f im ds0 b → DerivsOK ar fps ds0 →
+      (DerivsOK ar fps (ds0 ++ rest) →
+        GoodFnB names fps f im (ds0 ++ rest) (rest.foldl (fun b pd => b.partialDeriv hc ar pd.1 pd.2) b)) ∧
+      (¬ DerivsOK ar fps (ds0 ++ rest) →
+        ∃ e, (rest.foldl (fun b pd => b.partialDeriv hc ar pd.1 pd.2) b).res = .error e) := by
+  induction rest with
+  | nil =>
+    intro ds0 b hg hok
+    simp only [List.append_nil, List.foldl_nil]
+    exact ⟨fun _ => hg, fun hn => absurd hok hn⟩
+  | cons pd rest ih =>
+    intro ds0 b hg hok
+    simp only [List.foldl_cons]
+    have hsub : ∀ q ∈ ds0, q.1 ∈ fps := fun q hq => (hok.1 q hq).1
+    have happ : ds0 ++ pd :: rest = (ds0 ++ [pd]) ++ rest := by simp
+    by_cases hstep : pd.1 ∈ fps ∧ ar pd.2 = fps.length ∧ ∀ q ∈ ds0, q.1 ≠ pd.1
+    · have hg' := partialDeriv_good hc ar names fps f im h ds0 b hg hsub pd.1 pd.2 hstep.1 hstep.2.1 hstep.2.2
+      have hok' : DerivsOK ar fps (ds0 ++ [pd]) := by
+        constructor
+        · intro q hq
+          rcases List.mem_append.mp hq with hq | hq
+          · exact hok.1 q hq
+          · simp only [List.mem_singleton] at hq; subst hq; exact ⟨hstep.1, hstep.2.1⟩
+        · rw [List.map_append, List.nodup_append]
+          refine ⟨hok.2, by simp, ?_⟩
+          intro a ha b' hb'
+          simp only [List.map_cons, List.map_nil, List.mem_singleton] at hb'
+          subst hb'
+          obtain ⟨q, hq, rfl⟩ := List.mem_map.mp ha
+          exact hstep.2.2 q hq
+      rw [happ]
+      exact ih (ds0 ++ [pd]) _ hg' hok'
+    · constructor
+      · intro hall
+        exfalso
+        apply hstep
+        have h1 := hall.1 pd (by simp)
+        refine ⟨h1.1, h1.2, ?_⟩
+        intro q hq he
+        have hnd := hall.2
+        rw [List.map_append, List.map_cons, List.nodup_append] at hnd
+        exact hnd.2.2 q.1 (List.mem_map.mpr ⟨q, hq, rfl⟩) pd.1 (by simp) he
+      · intro _
+        exact foldl_error_stays hc ar rest _
+          (partialDeriv_bad hc ar names fps f im h ds0 b hg hsub pd.1 pd.2 hstep)
+
+end Varpro.MB
+
+namespace Varpro.MB
+set_option linter.unusedSectionVars false
+variable {N F G X K : Type} [DecidableEq N]
+
+theorem im_eq_map_keyOf {names fps : List N} {im : List Nat} (h : indexMapping names fps = .ok im) :
+    im = fps.map (keyOf names) := by
+  induction fps generalizing im with
+  | nil => simp [indexMapping] at h; subst h; rfl
+  | cons v vs ih =>
+    simp only [indexMapping] at h
+    cases hp : position names v with
+    | none => simp [hp] at h
+    | some i =>
+      simp only [hp] at h
+      cases hr : indexMapping names vs with
+      | error e => simp [hr] at h
+      | ok is =>
+        simp only [hr] at h
+        cases h
+        simp [keyOf, hp, ih hr]
+
+theorem zip_map_self {α β : Type} (l : List α) (g : α → β) :
+    (l.map g).zip l = l.map (fun n => (g n, n)) := by
+  induction l with
+  | nil => rfl
+  | cons a as ih => simp [List.zip_cons_cons, ih]
+
+/-- a duplicate-free list of names from `fps` that covers `fps` has as many entries as `fps` -/
+theorem length_eq_of_cover {fps : List N} {l : List N} (hf : fps.Nodup) (hl : l.Nodup)
+    (hsub : ∀ a ∈ l, a ∈ fps) (hcov : ∀ a ∈ fps, a ∈ l) : l.length = fps.length := by
+  apply List.Perm.length_eq
+  rw [List.perm_iff_count]
+  intro a
+  rw [hl.count, hf.count]
+  by_cases ha : a ∈ fps
+  · simp [ha, hcov a ha]
+  · have : a ∉ l := fun h => ha (hsub a h)
+    simp [ha, this]
+
+/-- `build` of a healthy function builder: succeeds iff every listed parameter received its
+derivative; the `panic!` branch is unreachable -/
+theorem build_good (hc : N → Bool) (ar : F → Nat) (names fps : List N) (f : F) (im : List Nat)
+    (h : FnOK hc ar names fps f im) (ds : List (N × F)) (b : FnB N F G)
+    (hg : GoodFnB names fps f im ds b) (hok : DerivsOK ar fps ds) :
+    ((∀ n ∈ fps, ∃ pd ∈ ds, pd.1 = n) →
+      b.build hc = .ok { function := .wrapped ⟨f, im⟩, derivatives := derivMap names im ds }) ∧
+    ((¬ ∀ n ∈ fps, ∃ pd ∈ ds, pd.1 = n) →
+      ∃ n, n ∈ fps ∧ b.build hc = .error (.missingDerivative n fps)) := by
+  have hnodup : fps.Nodup := by
+    have := (checkNames_ok_iff hc fps).mp h.hfps
+    simp only [namesOk, Bool.and_eq_true] at this
+    exact (allUnique_iff_nodup fps).mp this.2
+  have himk := im_eq_map_keyOf h.him
+  have hzip : im.zip fps = fps.map (fun n => (keyOf names n, n)) := by
+    rw [himk]; exact zip_map_self fps (keyOf names)
+  have hcontains : ∀ n ∈ fps, (mapContains (derivMap names im ds) (keyOf names n) = true ↔ ∃ pd ∈ ds, pd.1 = n) := by
+    intro n hn
+    rw [mapContains_derivMap]
+    constructor
+    · rintro ⟨pd, hpd, hk⟩
+      exact ⟨pd, hpd, keyOf_inj (mem_of_indexMapping h.him (hok.1 pd hpd).1) (mem_of_indexMapping h.him hn) hk⟩
+    · rintro ⟨pd, hpd, rfl⟩; exact ⟨pd, hpd, rfl⟩
+  unfold FnB.build FnB.checkCompletion
+  simp only [hg.res, hg.mps, hg.fps, h.hnames, h.hfps, h.him, hzip]
+  constructor
+  · intro hcov
+    have hfind : (fps.map (fun n => (keyOf names n, n))).find?
+        (fun ip => !mapContains (derivMap names im ds) ip.1) = none := by
+      rw [List.find?_eq_none]
+      intro ip hip
+      obtain ⟨n, hn, rfl⟩ := List.mem_map.mp hip
+      simp [(hcontains n hn).mpr (hcov n hn)]
+    have hlen : im.length = (derivMap names im ds).length := by
+      have h1 : im.length = fps.length := by rw [himk]; simp
+      have h2 : (ds.map (·.1)).length = fps.length :=
+        length_eq_of_cover hnodup hok.2
+          (fun a ha => by obtain ⟨pd, hpd, rfl⟩ := List.mem_map.mp ha; exact (hok.1 pd hpd).1)
+          (fun a ha => by obtain ⟨pd, hpd, he⟩ := hcov a ha; exact List.mem_map.mpr ⟨pd, hpd, he⟩)
+      simp only [derivMap, List.length_map] at h2 ⊢
+      omega
+    simp [hfind, hlen]
+  · intro hncov
+    cases hfind : (fps.map (fun n => (keyOf names n, n))).find?
+        (fun ip => !mapContains (derivMap names im ds) ip.1) with
+    | none =>
+      exfalso
+      apply hncov
+      intro n hn
+      rw [List.find?_eq_none] at hfind
+      have := hfind (keyOf names n, n) (List.mem_map.mpr ⟨n, hn, rfl⟩)
+      simp only [Bool.not_eq_true', Bool.not_eq_false] at this
+      exact (hcontains n hn).mp (by simpa using this)
+    | some ip =>
+      have hmem := List.mem_of_find?_eq_some hfind
+      obtain ⟨n, hn, rfl⟩ := List.mem_map.mp hmem
+      exact ⟨n, hn, by simp⟩
 
 end Varpro.MB
